@@ -463,8 +463,10 @@ fn adversarial_shape(subj: Subj, prof: &Prof) -> BoxedStrategy<Case> {
         0u16..60,
         waker_idx(),
         sel(),
+        // first drain the tail of the population (the last, largest group empties while earlier ones stay busy)
+        prop::bool::weighted(0.3),
     )
-        .prop_map(move |(before, after, (ctor, ucap), style, grind, wk, vsel)| {
+        .prop_map(move |(before, after, (ctor, ucap), style, grind, wk, vsel, drain_tail)| {
             let mut ops = Vec::new();
             let total = before + after + 1;
             // how long the grind must be to tell "late" from "never": the oracle's bound (G+1)(N+2)+4
@@ -525,8 +527,16 @@ fn adversarial_shape(subj: Subj, prof: &Prof) -> BoxedStrategy<Case> {
             // first round: everybody gets polled once and parks its waker
             ops.push(Op::Exec(wk, 12));
             ops.push(Op::Exec(wk, 12));
+            if drain_tail && after > 0 {
+                // complete everything behind the victim: the last group(s) drain first
+                let n_held = total as u32;
+                let ts = (((before as u32 + 1) * 65536 + 65535) / n_held).min(65535) as u16;
+                ops.push(Op::CompleteMany(ts, after.min(255) as u8));
+                ops.push(Op::Exec(wk, 250));
+                ops.push(Op::Exec(wk, 250));
+            }
             // wake the victim (held children are in id order: the victim is at index `before`)
-            let n_held = total as u32;
+            let n_held = if drain_tail && after > 0 { before as u32 + 1 + (after.saturating_sub(255)) as u32 } else { total as u32 };
             let vs = if n_held <= 1 { 0 } else { ((before as u32 * 65536 + 65535) / n_held).min(65535) as u16 };
             match style {
                 0 => {
